@@ -164,16 +164,17 @@ func runScens(prop string, scens []Scen) *ShardResult {
 				// determinism self-check: the default execution replayed must give the same observation
 				y := vsched.Run(append([]int(nil), x.Choices...), vsched.Config{Horizon: sc.Horizon}, sc.Body)
 				if sc.Obs(y) != o {
-					res.Infra = fmt.Sprintf("NONDETERMINISM scenario %d: %q vs %q", i, o, sc.Obs(y))
-					return "infra"
+					// code under test that is itself nondeterministic (e.g. ranges over a map) is judged by the
+					// violation path below when both runs violate; otherwise the harness does not own all choices
+					m1, _ := judgeExec(sc, x)
+					m2, _ := judgeExec(sc, y)
+					if m1 == "" || m2 == "" {
+						res.Infra = fmt.Sprintf("NONDETERMINISM scenario %d: %q vs %q", i, o, sc.Obs(y))
+						return "infra"
+					}
 				}
 			}
-			msg, key := sc.Check(x)
-			if x.Livelock && (msg == "" || strings.Contains(key, "stuck")) {
-				// a spin: library threads kept running up to the step horizon without any effect on the environment
-				msg = fmt.Sprintf("livelock: %d steps without any byte moved, connection opened or closed, or event delivered; threads: %v", x.Steps, x.Threads())
-				key = "symptom=livelock"
-			}
+			msg, key := judgeExec(sc, x)
 			if msg != "" {
 				if key == "" {
 					key = msg
@@ -204,7 +205,7 @@ func runScens(prop string, scens []Scen) *ShardResult {
 			var obs0 string
 			for k := 0; k < 5; k++ {
 				y := vsched.Run(f.choices, vsched.Config{Trace: k == 0 && sc.Horizon == 0, Horizon: sc.Horizon}, sc.Body)
-				m, mk := sc.Check(y)
+				m, mk := judgeExec(sc, y)
 				o := sc.Obs(y) + "|" + mk
 				if m != "" {
 					fails++
@@ -289,4 +290,15 @@ func emit(res *ShardResult) {
 			fmt.Printf("  VIOLATION key=%q msg=%q scenario=%s choices=%v replay=%s\n", v.Key, v.Msg, jstr(v.Scenario), v.Choices, v.Replay)
 		}
 	}
+}
+
+
+// judgeExec is the scenario's oracle plus the engine-level livelock verdict.
+func judgeExec(sc Scen, x *vsched.Exec) (string, string) {
+	msg, key := sc.Check(x)
+	if x.Livelock && (msg == "" || strings.Contains(key, "stuck")) {
+		// a spin: library threads kept running up to the step horizon without any effect on the environment
+		return fmt.Sprintf("livelock: %d steps without any byte moved, connection opened or closed, or event delivered; threads: %v", x.Steps, x.Threads()), "symptom=livelock"
+	}
+	return msg, key
 }
